@@ -153,6 +153,143 @@ theorem cloneSlot_deep_spec {E : Env} (hI : Idem E) (hC : CopyStable E) {src : S
   apply cloneSlot_deep_spec' hI hC hw hc hk _ oS oD n all hd
   rcases hm with h | h <;> simp [effMode, h]
 
+/-! ## `clone_traits(copy='deep')`, all slots -/
+
+theorem readSlot_ids {E : Env} {sl : Slot} {n m : Nat}
+    (hb : (∀ i ∈ slotIds sl, i < m) ∧ (∀ i ∈ ids sl.decl.dflt, i < m)) (o : Nat) :
+    (∀ i ∈ slotIds (readSlot E o n sl).2.1, i < m ∨ (n ≤ i ∧ i < (readSlot E o n sl).2.2)) ∧
+      n ≤ (readSlot E o n sl).2.2 := by
+  cases hv : sl.val with
+  | some v =>
+    have : readSlot E o n sl = (v, sl, n) := by simp [readSlot, hv]
+    rw [this]
+    exact ⟨fun i hi => Or.inl (hb.1 i hi), Nat.le_refl _⟩
+  | none =>
+    cases hval : validate E o sl.decl.shape n sl.decl.dflt with
+    | error e =>
+      have : readSlot E o n sl = (sl.decl.dflt, { sl with val := some sl.decl.dflt }, n) := by
+        simp [readSlot, hv, hval]
+      rw [this]
+      exact ⟨fun i hi => Or.inl (hb.2 i (by simpa [slotIds] using hi)), Nat.le_refl _⟩
+    | ok r =>
+      obtain ⟨v', n'⟩ := r
+      have : readSlot E o n sl = (v', { sl with val := some v' }, n') := by simp [readSlot, hv, hval]
+      rw [this]
+      have hl := validate_ids o _ _ _ _ _ hval
+      refine ⟨?_, hl.1⟩
+      intro i hi
+      have hi' : i ∈ ids v' := by simpa [slotIds] using hi
+      rcases hl.2 i hi' with h | h
+      · exact Or.inr h
+      · exact Or.inl (hb.2 i h)
+
+/-- One iteration in deep mode, with the identity ranges: the source slot only
+gains identities allocated before `mid`, the clone's slot holds only identities
+allocated from `mid` on. -/
+theorem cloneSlot_deep_ranges {E : Env} (hI : Idem E) (hC : CopyStable E) {src : Slot} (hw : WFSlot E src)
+    (hc : src.decl.copyable = true) (hk : src.decl.kind ≠ .event) {arg : Option CopyMode}
+    (hm : effMode src.decl.copy arg = .deep) (oS oD n m : Nat) (all : Bool)
+    (hb : (∀ i ∈ slotIds src, i < m) ∧ (∀ i ∈ ids src.decl.dflt, i < m))
+    (hd : NoDetached (readSlot E oS n src).1) :
+    ∃ mid, n ≤ mid ∧ mid ≤ (cloneSlot E oS oD arg all n src).2.2 ∧
+      (∀ i ∈ slotIds (cloneSlot E oS oD arg all n src).2.1, i < m ∨ (n ≤ i ∧ i < mid)) ∧
+      (∀ i ∈ slotIds (cloneSlot E oS oD arg all n src).1, mid ≤ i ∧ i < (cloneSlot E oS oD arg all n src).2.2) := by
+  obtain ⟨hv, _, _, _⟩ := readSlot_spec hI hw oS n
+  obtain ⟨u, n1, h1, h2, h3, h4⟩ := deepcopyV_spec _ (readSlot E oS n src).2.2 hd
+  have hvu := deepcopyV_valid hC hv _ _ _ h1
+  obtain ⟨w, n2, h5, h6⟩ := validate_of_valid hvu oD n1
+  have hl := validate_ids oD _ _ _ _ _ h5
+  have hr := readSlot_ids (E := E) (n := n) hb oS
+  have e : cloneSlot E oS oD arg all n src = (⟨src.decl, some w⟩, (readSlot E oS n src).2.1, n2) := by
+    simp [cloneSlot, hc, hm, copyValue, h1, assignSlot_fresh src.decl hk, h5]
+  rw [e]
+  refine ⟨(readSlot E oS n src).2.2, hr.2, by simp only; omega, hr.1, ?_⟩
+  intro i hi
+  have hi' : i ∈ ids w := by simpa [slotIds] using hi
+  rcases hl.2 i hi' with h | h
+  · simp only; omega
+  · have := h3 i h
+    simp only; omega
+
+/-- What `clone_traits(copy='deep')` needs of a slot for the clauses below. -/
+structure DeepOK (E : Env) (oS : Nat) (arg : Option CopyMode) (all : Bool) (sl : Slot) : Prop where
+  wf : WFSlot E sl
+  /-- copied slots are copied deeply and hold no detached container -/
+  deep : sl.decl.copyable = true ∨ (all = true ∧ sl.decl.kind ≠ .event) →
+    effMode sl.decl.copy arg = .deep ∧ sl.decl.copyable = true ∧ ∀ n, NoDetached (readSlot E oS n sl).1
+
+/-- **No sharing under `clone_traits(copy='deep')`** (and under `copy="deep"`
+metadata with any `copy` argument): no container object of the clone is a
+container object of the source - neither one that existed before, nor a default
+the cloning materialised in the source. -/
+theorem cloneL_no_sharing {E : Env} (hI : Idem E) (hC : CopyStable E) (oS oD m : Nat) (arg : Option CopyMode)
+    (all : Bool) :
+    ∀ (slots : List Slot) (n : Nat), m ≤ n → BelowAll m slots → (∀ sl ∈ slots, DeepOK E oS arg all sl) →
+      n ≤ (cloneL E oS oD arg all n slots).2.2 ∧
+      (∀ a ∈ (cloneL E oS oD arg all n slots).2.1, ∀ i ∈ slotIds a,
+        i < m ∨ (n ≤ i ∧ i < (cloneL E oS oD arg all n slots).2.2)) ∧
+      (∀ c ∈ (cloneL E oS oD arg all n slots).1, ∀ i ∈ slotIds c,
+        n ≤ i ∧ i < (cloneL E oS oD arg all n slots).2.2) ∧
+      (∀ c ∈ (cloneL E oS oD arg all n slots).1, ∀ i ∈ slotIds c,
+        ∀ a ∈ (cloneL E oS oD arg all n slots).2.1, i ∉ slotIds a)
+  | [], n, _, _, _ => by
+    simp only [cloneL]
+    exact ⟨Nat.le_refl _, fun _ h => (by cases h), fun _ h => (by cases h), fun _ h => (by cases h)⟩
+  | sl :: sls, n, hmn, hb, hd => by
+    have hbs := hb sl (by simp)
+    have hds := hd sl (by simp)
+    simp only [cloneL]
+    -- the head
+    have head : ∃ mid, n ≤ mid ∧ mid ≤ (cloneSlot E oS oD arg all n sl).2.2 ∧
+        (∀ i ∈ slotIds (cloneSlot E oS oD arg all n sl).2.1, i < m ∨ (n ≤ i ∧ i < mid)) ∧
+        (∀ i ∈ slotIds (cloneSlot E oS oD arg all n sl).1,
+          mid ≤ i ∧ i < (cloneSlot E oS oD arg all n sl).2.2) := by
+      by_cases hcopy : sl.decl.copyable = true ∨ (all = true ∧ sl.decl.kind ≠ .event)
+      · obtain ⟨h1, h2, h3⟩ := hds.deep hcopy
+        have hk : sl.decl.kind ≠ .event := by
+          intro hk; simp [Decl.copyable, hk] at h2
+        exact cloneSlot_deep_ranges hI hC hds.wf h2 hk h1 oS oD n m all hbs (h3 n)
+      · have hn : (sl.decl.copyable || (all && sl.decl.kind != .event)) = false := by
+          cases hc : sl.decl.copyable
+          · cases ha : all
+            · rfl
+            · cases hk : (sl.decl.kind != TKind.event)
+              · rfl
+              · exact absurd (Or.inr ⟨ha, by simpa using hk⟩) hcopy
+          · exact absurd (Or.inl hc) hcopy
+        have e : cloneSlot E oS oD arg all n sl = (⟨sl.decl, none⟩, sl, n) := by
+          simp [cloneSlot, hn]
+        rw [e]
+        exact ⟨n, Nat.le_refl _, Nat.le_refl _, fun i hi => Or.inl (hbs.1 i hi),
+          fun i hi => by simp [slotIds] at hi⟩
+    obtain ⟨mid, hm1, hm2, hh1, hh2⟩ := head
+    have ih := cloneL_no_sharing hI hC oS oD m arg all sls (cloneSlot E oS oD arg all n sl).2.2
+      (by omega) (fun s hs => hb s (by simp [hs])) (fun s hs => hd s (by simp [hs]))
+    obtain ⟨i1, i2, i3, i4⟩ := ih
+    refine ⟨by omega, ?_, ?_, ?_⟩
+    · intro a ha i hi
+      rcases List.mem_cons.mp ha with rfl | ha
+      · rcases hh1 i hi with h | h
+        · exact Or.inl h
+        · exact Or.inr ⟨h.1, by omega⟩
+      · rcases i2 a ha i hi with h | h
+        · exact Or.inl h
+        · exact Or.inr ⟨by omega, h.2⟩
+    · intro c hc i hi
+      rcases List.mem_cons.mp hc with rfl | hc
+      · have := hh2 i hi; omega
+      · have := i3 c hc i hi; omega
+    · intro c hc i hi a ha hia
+      rcases List.mem_cons.mp hc with rfl | hc
+      · have hci := hh2 i hi
+        rcases List.mem_cons.mp ha with rfl | ha
+        · rcases hh1 i hia with h | h <;> omega
+        · rcases i2 a ha i hia with h | h <;> omega
+      · have hci := i3 c hc i hi
+        rcases List.mem_cons.mp ha with rfl | ha
+        · rcases hh1 i hia with h | h <;> omega
+        · exact i4 c hc i hi a ha hia
+
 /-! ## A concrete environment for witnesses and examples -/
 
 /-- Leaf validators of the witnesses: tag 0 accepts integers only. -/
